@@ -89,6 +89,8 @@ def run(chk: core.Check):
             if len(chk.samples) < 3:
                 chk.sample({"cfg": {k: (list(v) if isinstance(v, tuple) else v) for k, v in cfg.items()}, "scale": e["scale"], "post": e["post"],
                             "om0_first_row": e["om0"][0][0] if cfg["sim"] != "ns3" else e["om0"][0][0][0]})
+    for issue in sorted(set(flowstep.CONSTRUCTION_ISSUES)):
+        chk.violation({"kind": "construction"}, issue)
     chk.extra["configurations"] = len(cfgs)
     chk.assumptions += [
         "grid spacing h = 1 and integer dt / dyadic viscosity, density: every prefactor is an integer, so the vorticity pipeline is exact "
